@@ -11,15 +11,28 @@ Extra generator classes of property C10 (on top of `gen/mesh.py`):
                                shallow copy, `assign_attrs`, a full-slice `isel`): what every
                                `ds.isel(...)` / `ds.copy()` / `drop_vars` of a user hands to a fresh accessor
 
-Everything is a pure function of the recipe (`recipe['c10']['storage']`, `recipe['c10']['relook']`),
-so a replay rebuilds exactly the same input.
+* `via_file(ds, path)`         the dataset written to netCDF AT A GIVEN PATH and opened again (the file that
+                               was at that path is replaced)
+* `with_history(recipe, ...)`  a HISTORY of one process (`recipe['c10']['history']`): before the dataset of
+                               the recipe is handed to emsarray, another valid mesh was opened from the same
+                               file path and all its tables were asked for ('replaced': a file regenerated in
+                               place), or the dataset is what `Dataset.isel` makes of an opened file whose
+                               tables were asked for, its faces reordered / some of them taken ('isel')
+* `base_mixes(tables)`         which connectivity tables count from the OTHER base than the rest
+                               (`enc['other_base_tables']`: `start_index` is an attribute of each table)
+
+Everything is a pure function of the recipe (`recipe['c10']['storage']`, `recipe['c10']['relook']`,
+`recipe['c10']['history']`), so a replay rebuilds exactly the same input and the same sequence of calls.
 """
 from __future__ import annotations
 
 import copy
+import os
 import random
+import tempfile
 
 import numpy as np
+import xarray as xr
 
 from harness.gen import datasets as G
 from harness.gen import mesh as M
@@ -132,3 +145,113 @@ def second_built(built: G.Built, how: str) -> G.Built:
     b2 = copy.copy(built)
     b2.ds = ds2
     return b2
+
+
+# --------------------------------------------------------------------------
+# index base per table
+
+def base_mixes(tables: list) -> list:
+    """The ways in which the tables of one file may disagree about the index base: face_node alone on the
+    other base, each supplied table alone, all supplied tables, face_node together with one supplied table."""
+    tables = list(tables)
+    out = [['face_node']]
+    out += [[t] for t in tables]
+    if len(tables) > 1:
+        out.append(tables)
+        out += [['face_node', t] for t in tables]
+    return out
+
+
+# --------------------------------------------------------------------------
+# a history: files at one path, datasets made from datasets
+
+def via_file(ds: xr.Dataset, path: str) -> xr.Dataset:
+    """`mesh.netcdf_roundtrip` at a path of the caller's choosing: whatever file was there is replaced.
+    The dataset handed back is loaded, the file closed; `.encoding['source']` is the path."""
+    ds = ds.copy(deep=True)
+    conn = M._conn_names(ds)
+    for name in conn:
+        v = ds[name]
+        if '_FillValue' in v.attrs:
+            v.encoding['_FillValue'] = v.attrs.pop('_FillValue')
+            v.encoding['dtype'] = 'int32'
+        else:
+            v.encoding['_FillValue'] = None
+    for name in ds.variables:
+        if name not in conn:
+            ds[name].encoding['_FillValue'] = None
+    if os.path.exists(path):
+        os.remove(path)
+    ds.to_netcdf(path)
+    with xr.open_dataset(path) as back:
+        back.load()
+        out = back.copy(deep=True)
+        for name in back.variables:
+            out[name].encoding = dict(back[name].encoding)
+    return out
+
+
+def earlier_meshes(rng: random.Random, faces: list) -> dict:
+    """other valid meshes on the same nodes: the faces in another order, fewer faces, the same faces each
+    begun at another corner / walked the other way round"""
+    out = {}
+    order = list(range(len(faces)))
+    for _ in range(8):
+        rng.shuffle(order)
+        if order != sorted(order):
+            break
+    out['reordered'] = [faces[i] for i in order]
+    keep = sorted(rng.sample(range(len(faces)), max(1, len(faces) - rng.randint(1, max(1, len(faces) // 2)))))
+    out['fewer'] = [faces[i] for i in keep]
+    rewound = []
+    for f in faces:
+        s = rng.randrange(1, len(f))
+        g = f[s:] + f[:s]
+        rewound.append(g[::-1] if rng.random() < 0.5 else g)
+    out['rewound'] = rewound
+    return out
+
+
+def with_history(recipe: dict, build, look) -> G.Built:
+    """Run the history of `recipe['c10']['history']` and hand back the dataset it ends with.
+
+    `build(recipe, path)` builds a dataset (through a file at `path` where the recipe asks for the netCDF
+    round trip), `look(built)` binds emsarray to it and asks for every table.
+
+    {'how': 'replaced', 'earlier': [{'faces':, 'edges':, 'tables':}, ...]}
+        each earlier mesh (same nodes, same encoding) is written to the path, opened and looked at; then the
+        file is replaced by the mesh of the recipe and opened
+    {'how': 'isel', 'file_faces': [...], 'file_edges': [...] | None}
+        the file holds `file_faces` (a rearrangement / superset of the recipe's faces); it is opened and looked
+        at; the dataset of the recipe is `opened.isel(face=[...])`, the faces of the recipe in their order
+    """
+    opt = recipe['c10']
+    hist = opt['history']
+    plain = {k: v for k, v in opt.items() if k != 'history'}
+    with tempfile.TemporaryDirectory(prefix='verif_c10h_') as tmp:
+        path = os.path.join(tmp, 'mesh.nc')
+        if hist['how'] == 'replaced':
+            for early in hist['earlier']:
+                r0 = dict(recipe, faces=early['faces'], edges=early['edges'],
+                          enc=dict(recipe['enc'], tables=list(early['tables'])), c10=plain)
+                look(build(r0, path))
+            return build(dict(recipe, c10=plain), path)
+        if hist['how'] == 'isel':
+            r0 = dict(recipe, faces=hist['file_faces'], edges=hist.get('file_edges'), c10=plain)
+            b0 = build(r0, path)
+            look(b0)
+            take = [hist['file_faces'].index(f) for f in recipe['faces']]
+            fdim = b0.extra['names']['face_dim']
+            ds = b0.ds.isel({fdim: take})
+            for n in b0.ds.variables:
+                if n in ds.variables:
+                    ds[n].encoding = dict(b0.ds[n].encoding)
+            # the ground truth of the mesh that was taken (never read from the dataset)
+            # (the table keeps the width the file gave it: padding columns where its widest faces went)
+            spare = max(len(f) for f in hist['file_faces']) - max(len(f) for f in recipe['faces'])
+            truth = {k: v for k, v in recipe.items() if k != 'c10'}
+            truth['enc'] = dict(recipe['enc'], pad=recipe['enc'].get('pad', 0) + spare)
+            built = G.build(truth)
+            built.ds = ds
+            return built
+    raise ValueError(f'history {hist!r}')
